@@ -25,6 +25,9 @@ def conds(tier):
     out.append(core.cancel_cond("cancel", PR))
     out.append(core.dagsync_cond("dagsync", PR))
     out.append(lemmas.select_cond())
+    out.append(Cond("flushraise", core.mk_flushraise({"c05"}), core.FLUSHRAISE_PARAMS, pin=3, budget=100,
+                    family="a batch whose public flush() raises after flushing: before/after events stay paired",
+                    encodes=core.ENC_SCHED))
     if not q:
         out.append(Cond("tree3k", core.mk_tree(P, 3, 2, 3), core.tree_params(3, 2, 3), pin=3, budget=900,
                         family="F-TREE(3,2,3)", encodes=core.ENC_SCHED))
